@@ -705,6 +705,11 @@ func runScenario(t *testing.T, sc *Scenario) {
 		rt.base, _ = census(true)
 		e := ev("Base")
 		e.N = rt.base
+		if sc.Topo == "pd" {
+			// the logical connection behind the demux (and its server) is created by the first
+			// envelope: the idle level is the one observed at the first idle point
+			e.N = -1
+		}
 		tr.emit(e)
 		for _, st := range sc.Steps {
 			rt.step(st)
